@@ -28,6 +28,7 @@ LEVEL_LABELS = ['CCN_CLAS', 'CCN_SUBC', 'CCN_SUPT', 'CCN_CLUS', 'class', 'subcla
                 'class_label', 'subclass_label', 'cluster_alias', 'type_name', 'assignment_group',
                 'lvl,1', 'le"vel', 'level two', 'Lévél', 'L#4']
 F12 = 'F12-csv-level-name-contains-label-name-alias-assignment'
+F31 = 'F31-csv-two-levels-with-one-readable-name-lose-a-level'
 READABLE = ['class', 'subclass', 'supertype', 'cluster', 'Class Name', 'sub,class', 'the "cluster"', 'neighborhood',
             'cluster_label', 'alias_of_type', 'R5', 'R6']
 NAME_CHARS = ['a', 'b', 'c', 'X', 'Y', '1', '2', '_', '-', ' ', ',', '"', "'", '\n', ';', '#', 'é', '/', '.', '\t']
@@ -446,33 +447,39 @@ def parse_comments(lines, names):
     return out, problems
 
 
-def column_table(case):
-    """header string -> structured column key of the model."""
-    from cell_type_mapper.taxonomy.taxonomy_tree import TaxonomyTree
+def readable_levels(case):
     data = case['tree']
-    hm = data.get('hierarchy_mapper', {})
+    hm = data.get('hierarchy_mapper') or {}
+    return [hm.get(level, level) for level in data['hierarchy']]
+
+
+def column_table(case, names):
+    """header string -> structured column key of the model.  A key holds the (integer name of the) READABLE
+    level name, as the real column name does: levels with one readable name share their keys."""
+    data = case['tree']
     conf = 1 if case['single_iter'] else 0
     conf_label = 'correlation_coefficient' if case['single_iter'] else 'bootstrapping_probability'
     tbl = {'cell_id': [0]}
     n_keys = 1
     max_r = max([case['w'] + 3] + [len(c[l].get('runner_up_assignment', [])) for c in case['results']
                                    for l in data['hierarchy'] if l in c])
-    readable = []
-    for lv, level in enumerate(data['hierarchy']):
-        rl = hm.get(level, level)
-        readable.append(rl)
-        ent = [(f'{rl}_label', [1, lv]), (f'{rl}_name', [2, lv]), (f'{rl}_alias', [3, lv])]
+    readable = readable_levels(case)
+    for rl in dict.fromkeys(readable):
+        z = names.get(rl)
+        ent = [(f'{rl}_label', [1, z]), (f'{rl}_name', [2, z]), (f'{rl}_alias', [3, z])]
         for f, fname in enumerate(FIELDS):
-            ent.append((f'{rl}_{conf_label}' if f == conf else f'{rl}_{fname}', [4, lv, f]))
+            ent.append((f'{rl}_{conf_label}' if f == conf else f'{rl}_{fname}', [4, z, f]))
         for k, kname in enumerate(RUN_KINDS):
             for i in range(max_r):
-                ent.append((f'{rl}_{kname}_{i}', [5, lv, k, i]))
-        for s, key in ent:
-            tbl[s] = key
+                ent.append((f'{rl}_{kname}_{i}', [5, z, k, i]))
+        for st, key in ent:
+            tbl[st] = key
             n_keys += 1
     ok = len(tbl) == n_keys
-    sticky = [any(word in rl for word in ('name', 'label', 'alias', conf_label)) for rl in readable]
-    categ = [any(word in rl for word in ('name', 'label', 'alias', 'assignment')) for rl in readable]
+    sticky = [names.get(rl) for rl in dict.fromkeys(readable)
+              if any(word in rl for word in ('name', 'label', 'alias', conf_label))]
+    categ = [names.get(rl) for rl in dict.fromkeys(readable)
+             if any(word in rl for word in ('name', 'label', 'alias', 'assignment'))]
     return tbl, readable, sticky, categ, ok
 
 
@@ -480,7 +487,7 @@ def parse_csv(text, case, names):
     lines, body = split_comments(text)
     comments, problems = parse_comments(lines, names)
     rows = list(csv.reader(io.StringIO(body, newline='')))
-    tbl, readable, sticky, categ, _ = column_table(case)
+    tbl, readable, sticky, categ, _ = column_table(case, names)
     if rows == [[]] or not rows:
         return {'comments': comments, 'cols': [], 'rows': [[] for _ in rows[1:]], 'header': [],
                 'raw_rows': [], 'problems': problems}
@@ -501,7 +508,7 @@ def parse_csv(text, case, names):
             elif kind in (4, 5):
                 if s == '':
                     cells.append([3])
-                elif categ[key[1]]:
+                elif key[1] in categ:
                     # a categorical column: the repr of the double, i.e. its exact value
                     try:
                         cells.append([4, rat(float(s))])
@@ -536,6 +543,8 @@ def csv_property(case, parsed):
     fails = []
     rows = parsed['raw_rows']
     header = parsed['header']
+    rls = readable_levels(case)
+    dup = len(set(rls)) != len(rls)        # two levels with one readable name: every row failure below is F31
     if len(rows) != len(case['results']):
         return [f'{len(rows)} rows for {len(case["results"])} records']
     if len(set(header)) != len(header):
@@ -566,6 +575,8 @@ def csv_property(case, parsed):
             if s is None or not NUM4.match(s) or int(Decimal(s) * 10000) != four_decimals(c[level][conf_key]):
                 known = any(word in rl for word in ('name', 'label', 'alias', 'assignment'))
                 fails.append(('F12 ' if known else '') + f'row {i}: {rl}_{conf_label} = {s!r} for {c[level][conf_key]!r}')
+    if dup:
+        fails = ['F31 ' + f for f in fails]
     # comment lines: JSON file, hierarchy, version
     lines, _ = split_comments(case['_csv_text'])
     if case['meta_name'] is not None and (not lines or lines[0] != f'# metadata = {case["meta_name"]}'):
@@ -576,6 +587,48 @@ def csv_property(case, parsed):
     if not any(cell_type_mapper.__version__ in ln and 'version' in ln for ln in lines):
         fails.append('no comment line with the version')
     return fails
+
+
+def blob_numbers(case):
+    for c in case['results']:
+        for level in case['tree']['hierarchy']:
+            if level in c:
+                e = c[level]
+                yield from [e['bootstrapping_probability'], e['avg_correlation'], e['aggregate_probability']]
+                yield from e.get('runner_up_probability', [])
+                yield from e.get('runner_up_correlation', [])
+
+
+def csv_text_input(case, names, csv_args):
+    """Model call 1555 (CsvText.blob_to_csv_text, the TEXT of the file): the strings behind the integer names, repr()
+    of the numbers (used by the model only in the categorical columns of finding F12), repository and version, then
+    the arguments of 1504.  Second result: the blob holds a -0.0 (no fraction carries its sign)."""
+    import cell_type_mapper
+    name_tbl = [[z, c15_csvtext.enc(st)] for st, z in names.d.items()]
+    nums = {}
+    for x in blob_numbers(case):
+        nums[tuple(rat(x))] = repr(float(x))
+    neg_zero = any(float(x) == 0.0 and bool(np.signbit(float(x))) for x in blob_numbers(case))
+    return (1555, [name_tbl, [[list(k), c15_csvtext.enc(v)] for k, v in nums.items()],
+                   [c15_csvtext.enc(cell_type_mapper.__repository__),
+                    c15_csvtext.enc(cell_type_mapper.__version__)]] + csv_args), neg_zero
+
+
+def csv_model_args(case, names):
+    """The arguments of model calls 1504 / 1555 for a case (registers every string of the case in names)."""
+    data = case['tree']
+    nodes_per_level(data, names)
+    for level in data['hierarchy']:
+        names(level)
+    if case['meta_name'] is not None:
+        names(case['meta_name'])
+    naming = encode_naming(data, names)
+    blob = encode_blob(case, names)
+    tbl, readable, sticky, categ, tbl_ok = column_table(case, names)
+    algo = {None: 0, True: 1, False: 2}[case['flatten_cfg']]
+    return [naming, [names(l) for l in data['hierarchy']],
+            [] if case['meta_name'] is None else [names(case['meta_name'])],
+            algo, 1 if case['single_iter'] else 0, [sticky, categ], blob]
 
 
 # ------------------------------------------------------------------ one batch of blob cases
@@ -594,7 +647,7 @@ def blob_cases(ctx):
     judge(ctx, cases, observed)
 
 
-def judge(ctx, cases, observed, verbose=False):
+def judge(ctx, cases, observed, verbose=False, stream='blob'):
     model_in = []
     names_l = []
     for case in cases:
@@ -607,14 +660,17 @@ def judge(ctx, cases, observed, verbose=False):
             names(case['meta_name'])
         naming = encode_naming(data, names)
         blob = encode_blob(case, names)
-        tbl, readable, sticky, categ, tbl_ok = column_table(case)
+        tbl, readable, sticky, categ, tbl_ok = column_table(case, names)
         case['_tbl_ok'] = tbl_ok
         algo = {None: 0, True: 1, False: 2}[case['flatten_cfg']]
         model_in.append((1501, [npl, case['w'], blob]))
         model_in.append((1503, [npl, case['w'], blob]))
-        model_in.append((1504, [naming, [names(l) for l in data['hierarchy']],
-                                [] if case['meta_name'] is None else [names(case['meta_name'])],
-                                algo, 1 if case['single_iter'] else 0, [sticky, categ], blob]))
+        csv_args = [naming, [names(l) for l in data['hierarchy']],
+                    [] if case['meta_name'] is None else [names(case['meta_name'])],
+                    algo, 1 if case['single_iter'] else 0, [sticky, categ], blob]
+        model_in.append((1504, csv_args))
+        txt_in, case['_neg_zero'] = csv_text_input(case, names, csv_args)
+        model_in.append(txt_in)
         names_l.append(names)
     res = ctx.model(model_in)
     # second batch: the reader on the file the implementation wrote
@@ -625,7 +681,7 @@ def judge(ctx, cases, observed, verbose=False):
             reader_idx.append(k)
     rres = dict(zip(reader_idx, ctx.model(reader_in)))
     for k, (case, obs, names) in enumerate(zip(cases, observed, names_l)):
-        m_h5, m_rt, m_csv = res[3 * k], res[3 * k + 1], res[3 * k + 2]
+        m_h5, m_rt, m_csv, m_txt = res[4 * k], res[4 * k + 1], res[4 * k + 2], res[4 * k + 3]
         hierarchy = case['tree']['hierarchy']
         mal = case['malformed']
         corr, prop = [], []
@@ -678,7 +734,7 @@ def judge(ctx, cases, observed, verbose=False):
                     rest_b = {kk: vv for kk, vv in obs['blob'].items() if kk != 'results'}
                     if rest_a != rest_b:
                         prop.append('hdf5 round trip does not reproduce the metadata (config, tree, log, markers)')
-            if not (m_rt[1][1][0] == 0 and m_rt[1][1][1] == model_in[3 * k][1][2]):
+            if not (m_rt[1][1][0] == 0 and m_rt[1][1][1] == model_in[4 * k][1][2]):
                 corr.append('Output.run_roundtrip: the model round trip is not the identity although blob_ok holds')
         # ---- CSV
         parsed = None
@@ -694,6 +750,19 @@ def judge(ctx, cases, observed, verbose=False):
                 if parsed['problems']:
                     prop.append('csv: ' + '; '.join(parsed['problems'][:3]))
                 known = []
+                csv_matches = [parsed['comments'], parsed['cols'], parsed['rows']] == m_csv[1]
+                if csv_matches:
+                    # the file, byte for byte, against CsvText.blob_to_csv_text
+                    if case['_neg_zero']:
+                        ctx.dist('csv file text tie', 'skipped: a -0.0 in the blob (a fraction has no negative zero)')
+                    elif m_txt[0] != 0:
+                        corr.append(f'CsvText.blob_to_csv_text: model {m_txt} although Output.blob_to_csv succeeds')
+                    elif c15_csvtext.dec(m_txt[1][0]) != obs['csv_text']:
+                        corr.append('CsvText.blob_to_csv_text: the file differs from the model text: real '
+                                    f'{obs["csv_text"]!r} model {c15_csvtext.dec(m_txt[1][0])!r}')
+                    else:
+                        ctx.dist('csv file text tie', 'byte for byte equal'
+                                 + (', table well_shaped for the comment reader' if m_txt[1][2] and m_txt[1][1] else ''))
                 if [parsed['comments'], parsed['cols'], parsed['rows']] != m_csv[1]:
                     hm_ = case['tree'].get('hierarchy_mapper', {})
                     f15_names = any(word in hm_.get(level, level) for level in hierarchy
@@ -713,8 +782,18 @@ def judge(ctx, cases, observed, verbose=False):
                     case['_csv_text'] = obs['csv_text']
                     fails = csv_property(case, parsed)
                     known = [f for f in fails if f.startswith('F12 ')]
-                    prop += ['csv: ' + f for f in fails if not f.startswith('F12 ')][:4]
+                    known31 = [f for f in fails if f.startswith('F31 ')]
+                    prop += ['csv: ' + f for f in fails if not f.startswith(('F12 ', 'F31 '))][:4]
                     case.pop('_csv_text')
+                    if known31:
+                        ctx.disagreements_checked += 1
+                        ctx.dist('duplicate readable level', 'a level is lost (F31)')
+                        ctx.violation('two levels with one readable name: the CSV loses the earlier level: '
+                                      + '; '.join(known31[:2]),
+                                      {'kind': 'blob', 'class': F31, 'problems': known31[:6],
+                                       'case': {kk: vv for kk, vv in case.items() if not kk.startswith('_')}})
+                    elif len(set(readable_levels(case))) != len(hierarchy):
+                        ctx.dist('duplicate readable level', 'same assignments on the merged levels: nothing visible')
                 if known:
                     ctx.disagreements_checked += 1
                     ctx.violation('CSV confidence column not printed to four decimals: ' + '; '.join(known[:2]),
@@ -730,7 +809,7 @@ def judge(ctx, cases, observed, verbose=False):
         quoting = any(ch in s for c in case['results'] for l in hierarchy if l in c
                       for s in [c[l]['assignment'], c['cell_id']] for ch in ',"\n')
         nontriv = (not mal) and depth >= 2 and len(case['results']) >= 2
-        ctx.count(('blob', k, depth, len(case['results']), case['w'], tuple(case['direct']), tuple(n_run)),
+        ctx.count((stream, k, depth, len(case['results']), case['w'], tuple(case['direct']), tuple(n_run)),
                   nontrivial=nontriv)
         ctx.dist('depth', depth)
         ctx.dist('n_runners_up', case['w'])
@@ -758,6 +837,91 @@ def judge(ctx, cases, observed, verbose=False):
             else:
                 rec['class'] = 'corr:' + corr[0].split(':')[0]
                 ctx.violation('model and implementation disagree: ' + '; '.join(corr[:3]), rec, no_input=True)
+
+
+# ------------------------------------------------------------------ two levels, one readable name (F31)
+def gen_dup_case(rng):
+    """A well-formed case of depth >= 2 whose hierarchy_mapper sends two (or more) levels to ONE readable name:
+    TaxonomyTree accepts it; blob_to_df builds the column names from the readable name."""
+    for _ in range(100):
+        case = gen_case(rng, malformed=False)
+        if len(case['tree']['hierarchy']) >= 2:
+            break
+    else:
+        raise RuntimeError('no case of depth >= 2')
+    data = case['tree']
+    hierarchy = data['hierarchy']
+    hm = dict(data.get('hierarchy_mapper') or {})
+    k = rng.choice([2, 2, 2, 3]) if len(hierarchy) >= 3 else 2
+    merged = sorted(rng.sample(range(len(hierarchy)), k))
+    kind = rng.choice(['pool', 'pool', 'other-level-label'])
+    if kind == 'pool':
+        target = rng.choice([r for r in READABLE if r not in hierarchy and r not in hm.values()] or ['merged'])
+        for i in merged:
+            hm[hierarchy[i]] = target
+    else:
+        # the others are sent to the (unmapped) label of one of the merged levels
+        keep = rng.choice(merged)
+        hm.pop(hierarchy[keep], None)
+        for i in merged:
+            if i != keep:
+                hm[hierarchy[i]] = hierarchy[keep]
+    data['hierarchy_mapper'] = hm
+    case['dup_levels'] = merged
+    return case
+
+
+def dup_cases(ctx):
+    rng = ctx.rng
+    n = ctx.n(60, 1200)
+    scratch = ctx.scratch / 'dupblobs'
+    scratch.mkdir()
+    (scratch / 'some' / 'dir').mkdir(parents=True)
+    cases, observed = [], []
+    for i in range(n):
+        case = gen_dup_case(rng)
+        rls = readable_levels(case)
+        assert len(set(rls)) < len(rls)
+        ctx.dist('duplicate readable level: merged levels', (len(case['tree']['hierarchy']), tuple(case['dup_levels'])))
+        cases.append(case)
+        observed.append(run_real(case, scratch, i))
+    judge(ctx, cases, observed, stream='dup')
+
+
+# ------------------------------------------------------------------ a NaN confidence
+def nan_cases(ctx):
+    """Outside the model (its numbers are exact fractions) and outside the property (a probability is never NaN;
+    avg_correlation only if the data hold a NaN): observed -- the real writer prints an EMPTY confidence field and
+    leaves the rest of the row alone."""
+    rng = ctx.rng
+    scratch = ctx.scratch / 'nanblobs'
+    scratch.mkdir()
+    (scratch / 'some' / 'dir').mkdir(parents=True)
+    for i in range(ctx.n(6, 60)):
+        for _ in range(100):
+            case = gen_case(rng, malformed=False)
+            if not any(w in rl for rl in readable_levels(case) for w in ('name', 'label', 'alias', 'assignment')):
+                break
+        case['single_iter'] = True
+        ic = rng.randrange(len(case['results']))
+        level = rng.choice(case['tree']['hierarchy'])
+        clean = run_real(case, scratch, 2 * i)
+        case['results'][ic][level]['avg_correlation'] = float('nan')
+        obs = run_real(case, scratch, 2 * i + 1)
+        rec = {'kind': 'nan', 'class': 'corr:nan-confidence-field', 'case': {k: v for k, v in case.items() if k != 'results'}}
+        ctx.count(('nan', i), nontrivial=False)
+        if 'csv_text' not in obs or 'csv_text' not in clean:
+            ctx.violation(f'blob_to_csv raised on a NaN confidence: {obs.get("csv_msg")}', rec, no_input=True)
+            continue
+        a = list(csv.reader(io.StringIO(split_comments(clean['csv_text'])[1], newline='')))
+        b = list(csv.reader(io.StringIO(split_comments(obs['csv_text'])[1], newline='')))
+        rl = readable_levels(case)[case['tree']['hierarchy'].index(level)]
+        col = a[0].index(f'{rl}_correlation_coefficient')
+        want = [list(r) for r in a]
+        want[ic + 1][col] = ''
+        ctx.dist('NaN confidence', 'written as an empty field' if b == want else 'other')
+        if b != want:
+            ctx.violation(f'NaN avg_correlation: row {b[ic + 1]!r}, expected {want[ic + 1]!r}', rec, no_input=True)
 
 
 # ------------------------------------------------------------------ re_order_blob
@@ -889,7 +1053,8 @@ def run(ctx):
                 'cell / level names with commas, quotes, newlines, tabs, #, non-ASCII; n_runners_up in {0,1,2,3,5} '
                 'with 0..k runners-up per cell and level (more requested than present included); all levels direct, '
                 'flattened (only the leaf direct) or some levels inferred; 25% single-iteration runs; floats include '
-                'exact ties of the 4-decimal rounding, +-0.0, tiny negatives; 20% malformed blobs (non-uniform flags, '
+                'exact ties of the 4-decimal rounding, +-0.0, tiny negatives; a separate stream of taxonomies whose '
+                'hierarchy_mapper gives 2-3 levels one readable name; 20% malformed blobs (non-uniform flags, '
                 'too many runners-up, unknown nodes, runner-up keys on inferred levels / absent on direct ones, '
                 'missing / extra levels, empty result list) compared with the model only. '
                 '(ii) the JSON / CSV / HDF5 files and the embedded taxonomy of real run_mapping runs (incl. flatten and drop_level). '
@@ -902,7 +1067,15 @@ def run(ctx):
         'the per-level dicts carry their keys in the order the mapper creates them (assignment, '
         'bootstrapping_probability, avg_correlation, runner_up_*, aggregate_probability, directly_assigned); only the '
         'order of the extra columns of a level whose readable name contains name/label/alias depends on it',
-        'readable level names are pairwise distinct and no column name of one level equals one of another',
+        'readable level names are pairwise distinct (hypothesis of c15_csv_rows) in the main stream; a separate '
+        'stream gives two or three levels ONE readable name (hierarchy_mapper, accepted by TaxonomyTree): model and '
+        'code are compared as everywhere, the loss of the earlier level is finding F31; no column name of one '
+        'readable level equals one of another (checked per case)',
+        'the blob holds no NaN (the model\'s numbers are exact fractions): a probability is a ratio of vote counts; '
+        'avg_correlation is NaN only if the expression data hold a NaN (constant rows give 0 by the convention of '
+        'distance_utils); a NaN confidence is written as an EMPTY field (observed in a small stream, not judged)',
+        'the byte-for-byte tie of the file text (tag 1555) leaves out blobs holding a -0.0 (printed -0.0000 by the '
+        'real code; the model\'s fraction 0/1 has no sign: covered on doubles by tag 1552, fmt4_text true 0 0)',
         'pandas CSV quoting and %.4f, gzip, h5py and json float printing are trusted (modelled as identity / exact '
         'round-half-even of the binary value)',
         'the embedded marker table (C08 reported_equals_used) is not part of this check',
@@ -911,6 +1084,8 @@ def run(ctx):
     reorder_cases(ctx)
     tree_cases(ctx)
     c15_csvtext.run_part(ctx)
+    dup_cases(ctx)
+    nan_cases(ctx)
     # (ii) the three files of real mapping runs (hierarchical, flattened, with a dropped level): the HDF5 output read
     # back and the CSV tell the JSON's story, the embedded taxonomy is the stored taxonomy without its cells
     from harness import mapcheck
